@@ -69,6 +69,8 @@ class World:
         parent = None
         if "." in name:
             parent = self.load(name.rsplit(".", 1)[0])
+            if name in self.mods:  # loaded as a side effect of the parent package's __init__
+                return self.mods[name]
         path, is_pkg = self._find(name)
         if path is None:
             raise ModuleNotFoundError(name)
